@@ -19,6 +19,18 @@ def run(c):
         c.run_driver(drv, ["-mode", "honest", "-out", trace, "-topos", "T1,T2,T3",
                            "-random", 40 if c.thorough else 3])
     _dp.validate(c, "C02", trace)
+    if not c.replay:
+        # segments produced by concurrent origination / propagation / registration: several goroutines
+        # extend through the one DefaultExtender of an AS at the same time (as Originator, Propagator and
+        # Writer do), with overlapping beaconing intervals, on a wide fan-out topology; the hashes the
+        # harness' MAC factory hands out yield the processor inside every operation (schedule perturbation)
+        conc = c.scratch + "/conc.ndjson"
+        c.run_driver(drv, ["-mode", "conc", "-out", conc])
+        _dp.validate(c, "C02", conc)
+        n = sum(1 for line in open(conc) if '"ev":"reset"' in line)
+        c.cov["traces_validated_against_impl"] += n
+        c.cov["evaluations"] += sum(1 for line in open(conc) if '"ev":"hop"' in line)
+        c.notes.append("%d journeys over segments produced by concurrent beacon extension" % n)
     _dp.coverage(c, trace, lambda r, evs: r["mode"] == "honest" and any(
         e["ev"] == "hop" and e["j"] == "req" for e in evs),
         "every path returned by the real combinator (findAllIdentical) for every ordered AS pair of "
